@@ -84,7 +84,7 @@ type published struct {
 
 func CheckC17(run *evid.Run) {
 	total := pick(run.Tier, 400, 4000)
-	run.Rule = "seeded histories of appends, merges, manifest publications, denied appends and injected write failures (the k-th Add fails) on replicas sharing one store, under the default, link-encrypting and legacy codecs. (a) online assertion inside the store's Add, under the store's own mutex: every entry block decoded with the codec/key in use must find all its predecessors and references already stored, every manifest its heads; (b) crash-point enumeration: every returned manifest hash / appended entry hash / JSON head list / head-entry list is reloaded from the store prefix at the moment it was returned and from EVERY later prefix (each prefix = a crash between two block writes) and must reproduce the entry set, heads and values recorded at that moment; (c) an operation whose write failed must return an error and leave the log unchanged. Non-trivial history = >=2 replicas wrote, a merge happened and >=1 publication; distinct = shape digest + codec; crash points and reloads are counted"
+	run.Rule = "seeded histories of appends (a third of them PINNED; the harness pin service accepts any identifier), merges, manifest publications, denied appends, refused merges, forks and injected write failures (the k-th Add fails) on replicas sharing one store, under the default, link-encrypting and legacy codecs. (a) online assertion inside the store's Add, under the store's own mutex: every entry block decoded with the codec/key in use must find all its predecessors and references already stored, every manifest its heads; (b) crash-point enumeration: every returned manifest hash / appended entry hash / JSON head list / head-entry list is reloaded from the store prefix at the moment it was returned and from EVERY later prefix (each prefix = a crash between two block writes) and must reproduce the entry set, heads and values recorded at that moment; (c) an operation whose write failed must return an error and leave the log unchanged. Non-trivial history = >=2 replicas wrote, a merge happened and >=1 publication; distinct = shape digest + codec; crash points and reloads are counted"
 	run.Assumptions = []string{"a crash is modelled as losing every block write after a prefix of the Add sequence; block writes themselves are atomic", "reload clauses run under the default and link-encrypting codecs; the legacy codec cannot read back what it writes for v2 entries (decode-only for v0 blocks), so only the closure assertion runs there"}
 	parallel(total, func(i int) { c17Case(run, i) })
 }
